@@ -17,7 +17,8 @@ from ..evidence import Evidence
 from .. import replay, tlc
 from .. import trace as T
 from concurrent.futures import ThreadPoolExecutor
-from ..adapters.xyztext import Lab, XyzAdapter, walk, SYMBOLS, DUMMY, GEOM_CLASSES, ENS
+from ..adapters.xyztext import Lab, XyzAdapter, walk, SYMBOLS, DUMMY, GEOM_CLASSES, ENS, NAMES
+NAME_TOKENS = sorted(NAMES)
 
 PROP = "C08"
 WORKERS = 4
@@ -29,8 +30,8 @@ KNOWN = {}
 SPEC_UNITS = ("A", "Angstrom", "Bohr", "au", "fm", "pm", "nm")      # DOMAIN PerAngstrom in XyzText.tla
 INV = ("TypeOK", "TextDenotesTruth")
 PROPS = ("LoadFaithful", "UnitsPreserveDistance")
-ACTIONS = ("Make", "Dump", "DumpLastConformer", "Foreign", "Load")
-DEVIATIONS = ("DevInverted", "DevEnsUnits", "DevEmpty", "DevFrames", "DevColumns", "DevDummy", "DevWide")
+ACTIONS = ("Make", "Dump", "DumpLastConformer", "DumpFmt", "DumpLastConformerFmt", "Foreign", "Load")
+DEVIATIONS = ("DevInverted", "DevEnsUnits", "DevEmpty", "DevFrames", "DevColumns", "DevDummy", "DevWide", "DevBlank", "DevFmt")
 
 
 def tla_set(xs):
@@ -39,12 +40,16 @@ def tla_set(xs):
 
 def mc_cfg(tier, units, dec, seed, dev="DevNone"):
     if dev != "DevNone":
-        pools = {"GeomPool": "<- PoolW" if dev == "DevWide" else "<- PoolD", "SmallPool": "<- SmallD", "FilePool": "<- FPoolD"}
+        gp = {"DevWide": "PoolW", "DevFmt": "PoolF"}.get(dev, "PoolD")
+        pools = {"GeomPool": f"<- {gp}", "SmallPool": "<- SmallD", "FilePool": "<- FPoolD",
+                 "FmtPool": "<- PoolF" if dev == "DevFmt" else "<- NoFmt", "FmtDecs": "<- FmtDecsQ"}
         units = [u for u in units if u in ("A", "Angstrom", "pm", "nm")]
     elif tier == "thorough":
-        pools = {"GeomPool": "<- PoolT", "SmallPool": "<- SmallT", "FilePool": "<- FPoolT"}
+        pools = {"GeomPool": "<- PoolT", "SmallPool": "<- SmallT", "FilePool": "<- FPoolT", "FmtPool": "<- FmtPoolT",
+                 "FmtDecs": "<- FmtDecsT"}
     else:
-        pools = {"GeomPool": "<- PoolQ", "SmallPool": "<- SmallQ", "FilePool": "<- FPoolQ"}
+        pools = {"GeomPool": "<- PoolQ", "SmallPool": "<- SmallQ", "FilePool": "<- FPoolQ", "FmtPool": "<- FmtPoolQ",
+                 "FmtDecs": "<- FmtDecsQ"}
     return dict(spec="Spec", constants={**pools, "Units": tla_set(units), "Dec": dec, "MaxDumps": 3,
                                         "Deviations": f"<- {dev}", "Shift": seed % 11},
                 invariants=INV, properties=PROPS, view="View")
@@ -79,8 +84,11 @@ def direction_a(tier, seed, ev, rep, lab, units, dec):
     # the graph falls into disjoint parts below the root (objects that are dumped / foreign files per unit family):
     # emitted by parallel single-worker TLC runs and merged
     fams = [[u for u in units if u in f] for f in (("A", "Angstrom", "pm"), ("Bohr", "au"), ("nm", "fm"))]
-    parts = [("objects", {"FilePool": "<- NoFiles"})] + \
-            [("files " + "/".join(f), {"GeomPool": "<- NoGeoms", "SmallPool": "<- NoGeoms", "Units": tla_set(f)}) for f in fams if f]
+    t = "T" if tier == "thorough" else "Q"
+    parts = [("objects at scale 0", {"FilePool": "<- NoFiles", "GeomPool": f"<- Pool{t}0", "FmtPool": f"<- Fmt{t}0"}),
+             ("objects at scale 3 / -3", {"FilePool": "<- NoFiles", "GeomPool": f"<- Pool{t}x", "SmallPool": "<- NoGeoms",
+                                          "FmtPool": f"<- Fmt{t}x"})] + \
+            [("files " + "/".join(f), {"GeomPool": "<- NoGeoms", "SmallPool": "<- NoGeoms", "FmtPool": "<- NoFmt", "Units": tla_set(f)}) for f in fams if f]
 
     def emit(part):
         name, over = part
@@ -139,13 +147,16 @@ BUNDLED = ("dendrobine.xyz", "pentane_confs.xyz", "dummy.xyz")
 
 def trace_cfg(units):
     return dict(spec="TraceSpec", constants={"GeomPool": "<- NoPool", "SmallPool": "<- NoPool", "FilePool": "<- NoPool",
-                                             "Units": tla_set(units), "Dec": 6, "MaxDumps": 0, "Deviations": "<- DevNone"},
+                                             "Units": tla_set(units), "Dec": 6, "MaxDumps": 0, "Deviations": "<- DevNone",
+                                             "FmtPool": "<- NoPool", "FmtDecs": "<- NoPool"},
                 invariants=TRACE_INV)
 
 
-def rand_coord(rnd, world=1):
+def rand_coord(rnd, world=0):
     r = rnd.random()
-    if world != 1:                                          # micro-kiloangstrom: 1e3 .. 2e6 A, the widths of 11 .. 14 characters
+    if world == -3:                                         # 1e-9 A units: anything within +-2 A, digits down to 1e-10 A
+        u = rnd.choice((rnd.randint(-2_000_000_000, 2_000_000_000), rnd.randint(-2_000_000, 2_000_000), rnd.randint(-600, 600)))
+    elif world == 3:                                        # micro-kiloangstrom: 1e3 .. 2e6 A, the widths of 11 .. 14 characters
         u = rnd.choice((-1, 1)) * rnd.choice((rnd.randint(1_000_000, 9_999_999), rnd.randint(10_000_000, 99_999_999),
                                               rnd.randint(100_000_000, 999_999_999), rnd.randint(1_000_000_000, 2_000_000_000)))
     elif r < 0.08:
@@ -178,11 +189,11 @@ def rand_els(rnd, n):
 
 def rand_obj(rnd, cls=None, nmax=12, world=None):
     cls = cls or rnd.choice(GEOM_CLASSES + (ENS,))
-    w = world or (1000 if rnd.random() < 0.25 else 1)
+    w = world if world is not None else rnd.choice((0, 0, 0, 3, -3))
     n = rnd.choice((0, 1, 2, 3, rnd.randint(0, nmax)))
     els = rand_els(rnd, n)
     k = rnd.randint(1, 5) if cls == ENS else 1
-    return {"cls": cls, "world": w, "frames": [[{"el": e, "ty": t, "x": rand_coord(rnd, w), "y": rand_coord(rnd, w), "z": rand_coord(rnd, w)}
+    return {"cls": cls, "world": w, "name": rnd.choice(NAME_TOKENS), "frames": [[{"el": e, "ty": t, "x": rand_coord(rnd, w), "y": rand_coord(rnd, w), "z": rand_coord(rnd, w)}
                                                for e, t in els] for _ in range(k)]}
 
 
@@ -258,9 +269,9 @@ def bundled_scripts(lab, rnd, units):
         mk = lambda f: [{"el": a["el"], "ty": "dummy" if a["el"] == DUMMY else "regular", "x": {"u": a["x"] * q, "s": 0}, "y": {"u": a["y"] * q, "s": 0}, "z": {"u": a["z"] * q, "s": 0}}
                         for a in f]
         if hom:
-            g = {"cls": ENS, "world": 1, "frames": [mk(f) for f in frames]}
+            g = {"cls": ENS, "world": 0, "name": "plain", "frames": [mk(f) for f in frames]}
         else:
-            g = {"cls": "Molecule", "world": 1, "frames": [mk(frames[0])]}
+            g = {"cls": "Molecule", "world": 0, "name": "plain", "frames": [mk(frames[0])]}
         script = [{"op": "make", "g": g}, {"op": "dump", "route": "dumps"}] + loads_for(rnd, "xyz", "Angstrom", True, units)
         out.append((f"redump-{name}", script))
     return out
@@ -272,13 +283,18 @@ def scripts(lab, tier, seed, units):
     out = []
     for i in range(n_obj):                                   # one object, written, read back by every entry point
         g = rand_obj(rnd, nmax=12 if tier == "quick" else 30)
+        fmt = {"route": "dump_fmt", "D": rnd.randint(max(0, -g["world"]), 12)}   # the caller's format: 0..12 decimals
         wr = {"op": "dump", "route": rnd.choice(("dumps", "dump"))}
         if g["cls"] == ENS and rnd.random() < 0.4:           # one Conformer view writes its frame
             wr = {"op": "dumpconf", "route": rnd.choice(("dumps", "dump")), "i": rnd.randint(1, len(g["frames"]))}
+            if rnd.random() < 0.5:
+                wr.update(fmt)
+        elif g["cls"] != ENS and rnd.random() < 0.4:
+            wr.update(fmt)
         out.append((f"obj{i}", [{"op": "make", "g": g}, wr] + loads_for(rnd, "xyz", "Angstrom", True, units)))
     for i in range(n_stream):                                # several objects written one after another onto one stream
         sc, sig = [], []
-        w = 1000 if rnd.random() < 0.2 else 1               # one length scale per stream
+        w = rnd.choice((0, 0, 0, 3, -3))                    # one length scale per stream
         for _ in range(rnd.randint(2, 4)):
             g = rand_obj(rnd, nmax=6, world=w)
             sc += [{"op": "make", "g": g}, {"op": "dump", "route": rnd.choice(("dumps", "dump"))}]
@@ -301,31 +317,34 @@ LIMIT = 2_100_000_000
 def execute(lab, script):
     """Run a script on the real code; returns the event list (inputs + abstracted observations)."""
     import io
-    obj, stream, text, fmt, world = None, io.StringIO(), "", "none", 1
+    obj, stream, text, fmt, world = None, io.StringIO(), "", "none", 0
     evs = []
     for op in script:
         o = op["op"]
         if o == "make":
             obj = lab.build(op["g"])
-            world = op["g"].get("world", 1)
+            world = op["g"].get("world", 0)
             evs.append({"ev": "make", "g": op["g"]})
         elif o == "make_loaded":                              # the object a real mol2 load returns; the model is told what it holds
             import molli as ml
             obj = lab.cls[op["cls"]].load_mol2(ml.files.ROOT / op["file"])
-            world = 1
+            world = 0
             evs.append({"ev": "make", "g": lab.abstract_obj(obj)})
         elif o in ("dump", "dumpconf"):
             if o == "dump":
-                lab.dump(obj, op["route"], stream)
+                lab.dump(obj, op["route"], stream, op.get("D"))
             else:
-                lab.dump_conformer(obj, op["i"], op["route"], stream)
+                lab.dump_conformer(obj, op["i"], op["route"], stream, op.get("D"))
             text, fmt, obj = stream.getvalue(), "xyz", None
-            lines, dec = lab.tokenize_xyz(text, None)
-            d = 6 if dec is None else min(dec, 6)
-            lines, _ = lab.tokenize_xyz(text, d, world)
-            evs.append({"ev": o, "route": op["route"], "dec": d, "lines": lines, **({"i": op["i"]} if o == "dumpconf" else {})})
+            if op["route"] == "dump_fmt":
+                D = op["D"]                                   # the decimals the caller asked for
+            else:
+                _, found = lab.tokenize_xyz(text, None)       # the decimals the default format shows
+                D = 6 if found is None else found
+            lines, _ = lab.tokenize_xyz(text, D, world)
+            evs.append({"ev": o, "route": op["route"], "D": D, "lines": lines, **({"i": op["i"]} if o == "dumpconf" else {})})
         elif o == "foreign":
-            fmt, world = op["fmt"], 1
+            fmt, world = op["fmt"], 0
             if "file" in op:
                 import molli as ml
                 text = (ml.files.ROOT / op["file"]).read_text()
@@ -408,9 +427,8 @@ def run(tier, seed, replay_path):
             ev.assumptions.append(f"DistanceUnit members {extra} are not in XyzText!PerAngstrom and are not checked")
         if dec is None or dec < 1:
             raise tlc.MachineryError(f"could not read the written precision off dumps_xyz output (dec={dec})")
-        mdec = min(dec, 6)
         rep.note(f"probe: DistanceUnit members {code_units}; xyz writer emits {dec} decimals")
-        direction_a(tier, seed, ev, rep, lab, units, mdec)
+        direction_a(tier, seed, ev, rep, lab, units, dec)
         direction_b(tier, seed, ev, rep, lab, units)
     finally:
         lab.cleanup()
